@@ -319,6 +319,10 @@ class C12(Prop):
             if rng.random() < 0.2:
                 # the daemon's own environment underneath the sections
                 w0['opts']['copy_env'] = 'True'
+                if rng.random() < 0.5:
+                    # ... and its module search path (a daemon that has no
+                    # PYTHONPATH of its own computes one)
+                    w0['opts']['copy_path'] = 'True'
             if rng.random() < 0.25:
                 w0['opts']['stdout_stream.class'] = 'FileStream'
                 w0['opts']['stdout_stream.filename'] = \
@@ -396,6 +400,9 @@ class C12(Prop):
                     'stop_signal': rng.choice(['TERM', 'INT', 'QUIT']),
                     'respawn': rng.choice(['True', 'False']),
                     'copy_env': rng.choice(['True', 'False'])}[k]
+                if k == 'copy_env' and 'copy_path' in w['opts']:
+                    # (the two must agree, the daemon refuses anything else)
+                    w['opts']['copy_path'] = w['opts']['copy_env']
             elif kind == 'new_option':
                 w = rng.choice(ws)
                 k = rng.choice(['max_age', 'max_age_variance',
@@ -420,7 +427,11 @@ class C12(Prop):
                 extra = [k for k in w.get('opts', {})
                          if k != 'graceful_timeout' and '_stream.' not in k]
                 if extra:
-                    w['opts'].pop(rng.choice(extra))
+                    k = rng.choice(extra)
+                    w['opts'].pop(k)
+                    if k in ('copy_env', 'copy_path'):
+                        w['opts'].pop('copy_env', None)
+                        w['opts'].pop('copy_path', None)
                 else:
                     kind = 'noop'
             elif kind == 'env':
